@@ -147,17 +147,35 @@ def run(ctx):
     res.assumptions = ["client-side URL normalisation by real browsers is not modelled", "names containing '..', './' etc. are C12's subject and not in this tree"]
     parse_lines, parse_checks = [], []
     quote_lines, quote_checks = [], []
-    for listname, ctl in (("shipped", False), ("shipped", True), ("full", False)):
+    for listname, ctl in (("shipped", False), ("shipped", True), ("full", False), ("rootmap", False), ("warm", False)):
         tree = pyg.Tree()
         try:
             build_tree(tree, listname == "full", ctl)
             kw = {"handlers.dir.DirHandler|cachetime": "0"}
             if listname == "full":
                 kw["handlers.ZIP.ZIPHandler|enabled"] = "true"
+            if listname == "rootmap":
+                # the site's front page is a gophermap: relative, missing and absolute selectors, at the root and one level down
+                tree.write("about.txt", b"about\n")
+                tree.write("gophermap", b"iWelcome\n0About\tabout.txt\n1Docs\tdocs\n0README\n1Mail\t/mail\n0Deep\tdocs/sub/deep.txt\n1Sub map\tmapped\n")
+                tree.write("mapped/gophermap", b"0Inner\tinner.txt\n1Up\t/\n0Abs\t/about.txt\n")
+                tree.write("mapped/inner.txt", b"inner\n")
+            if listname == "warm":
+                # every real directory has been requested directly before (caches written, Maildir sub-directories listed as plain directories)
+                kw = {}
             cfg = pyg.make_config(tree.root, pyg.FULL_HANDLERS if listname == "full" else None, **kw)
             waptop = cfg.get("protocols.wap.WAPProtocol", "waptop")
+            if listname == "warm":
+                for dp, dn, fn in os.walk(os.fsencode(tree.root)):
+                    rel = dp[len(os.fsencode(tree.root)):] or b"/"
+                    if b"\t" in rel or b"\n" in rel:
+                        continue
+                    pyg.request(rel + b"\r\n", cfg)
+                    pyg.request(b"GET " + urllib.parse.quote(rel).encode() + b" HTTP/1.0\r\n\r\n", cfg)
             for proto in ["gopher", "gopherp", "http", "wap", "gemini", "spartan", "https"]:
                 if listname == "full" and proto in ("https",):
+                    continue
+                if listname in ("rootmap", "warm") and proto not in ("gopher", "http", "gemini"):
                     continue
                 if ctl != (proto not in ("gopher", "gopherp")) and listname == "shipped":
                     continue
